@@ -174,7 +174,8 @@ partial def stepWords (d : DS) (w : List String) : DS × String :=
     | some e, some b => ({ m := (VLog.init.step (.setLimits e b)).1 }, "ok")
     | _, _ => (d, "bad-op")
   | ["checkpoint"] =>
-    ({ d with cps := d.cps ++ [(d.m.checkpoint, true)], cpViews := d.cpViews ++ [viewOf d.m] }, s!"cp {d.cps.length}")
+    ({ d with m := (d.m.step .checkpoint).1, cps := d.cps ++ [(d.m.checkpoint, true)], cpViews := d.cpViews ++ [viewOf d.m] },
+      s!"cp {d.cps.length}")
   | ["revert", i] =>
     match i.toNat? with
     | none => (d, "bad-op")
